@@ -1,41 +1,66 @@
 import PySMT.Proofs.C11Main
 import PySMT.Proofs.C11Simp
+import PySMT.Proofs.C11Stable
 /-!
 # C11 — CNF conversions and Ackermannization: advertised form and model-by-model equisatisfiability
 
 Models: `Impl/Rewritings/{CNF,PolCNF,Ackermann}.lean` (the code after the repairs F33, F50, F52, F19, F20).
-`complete` + `sound` are the two halves of the property: every interpretation satisfying the input
-extends on the fresh symbols to one satisfying the output (`ext u I` / `extA u I` agree with `I` on
-the input's symbols: second conjunct), and every interpretation satisfying the output satisfies the
-input (for Ackermannization: with the eliminated functions read off the fresh constants, `recover`).
+`complete` + `sound` are the two halves of the equisatisfiability part of the property: every interpretation
+satisfying the input extends on the fresh symbols to one satisfying the output (`ext u I` / `extA u I` agree with
+`I` on the input's symbols and are well-formed when `I` is), and every interpretation satisfying the output
+satisfies the input (for Ackermannization: with the eliminated functions read off the fresh constants, `recover`,
+again a well-formed interpretation).
 
-Hypotheses, all of them discharged for the models' own fresh-symbol supply by `*_std` / `keys_fresh`:
-* `KeysFresh` / `ConstsFresh`: the definition symbols (fresh constants) are pairwise distinct on the
-  sub-formulas (applications) that receive one and do not occur in the input — proved for the model
-  of `FormulaManager.new_fresh_symbol` (`keys_fresh`, `consts_fresh`); K checks it on every run for
-  the real manager.
-* `SimpSound`, `SimpSym`, `SimpShape`: what the CNFizers need from `FNode.simplify`, which they use to
-  negate literals (C01: truth value preserved under every interpretation that agrees with the given
-  one on the input's symbols; symbols are their own simplification; an atom simplifies to a literal
-  or a constant).  `id` satisfies all three (`example`s below).
-* `t.wf`: the term is built by the `FormulaManager` constructors (arity + type check, `Impl/WF.lean`);
-  only the shape theorems and Ackermannization need it.  The CNF equisatisfiability theorems hold for
-  every term on which `convert` answers.
+What is proved at full strength, and what is conditional:
+
+* **Ackermannization** (`ack_shape`, `ack_complete`, `ack_sound`): full, for `t.wf`, quantifier-free `t`, with the
+  fresh-constant hypotheses `ConstsFresh` / `KeyTyped` discharged for the model of `new_fresh_symbol` in ANY manager
+  state that knows the input's symbols (`consts_fresh_in`).
+* **CNF equisatisfiability for an abstract simplifier** (`cnf_*`, `polCnf_*`): the CNFizers negate literals with
+  `Not(a).simplify()`; the simplifier is the parameter `E.simp` with hypotheses `SimpSound` / `SimpSym` /
+  `SimpShape`.  `SimpSound` quantifies over ALL terms, which the real simplifier does not satisfy (division by zero,
+  terms outside C01's fragment): these generic theorems are instantiable with `id` only (`example`s) — their
+  content is the Tseitin / polarity argument and the top-level clean-up.  The freshness hypotheses `KeysFresh`
+  (on the Boolean skeleton `boolNodes t`) / `KeyBool` are discharged for both converters' own supplies in any
+  manager state that knows the input's symbols (`keys_fresh_in`, `keys_fresh_pol_in`).
+* **CNF with the real simplifier model** (`*_simp_partial`): `_partial` because they assume the side conditions
+  `SimpSide` (every term handed to the simplifier — a computable list `simpArgs key t`, which contains simplifier
+  OUTPUTS since a negated literal is negated again by the parent node — is a definition symbol or a `wf` Boolean
+  term of C01's fragment over the input's symbols without evaluated division by zero) and, for the shape,
+  `ShapeSide` (atoms handed to the simplifier come back as literals or constants).  They are discharged
+  structurally only for inputs whose atoms are fixed points of the simplifier (`simp_side_of_stable`:
+  `t.wf`, Boolean, quantifier-free, every atom `a` at a Boolean position in C01's fragment with `simp a = a` and
+  `div0 I a = false`).  Missing for the general discharge: that `simp` maps an atom of the fragment to a
+  literal-or-constant of the fragment (C01 exports no `inFrag (simp t)`), which is false for the shape half on
+  Boolean array reads (known finding F51).
+* `t.wf`: the term is built by the `FormulaManager` constructors (arity + type check, `Impl/WF.lean`).
+
+Not covered by a theorem: a second `convert` / `do_ackermannization` on the SAME object (its tables persist).  On the
+real code the later results are still equisatisfiable (the extra consistency constraints of an `Ackermannizer`
+only mention fresh constants; a CNFizer returns the same clauses up to the names of the definition variables);
+this is checked by S on every run (stream `reuse`), K compares the CNF results, the Ackermann ones are S-only.
+
+Definitions outside `Core`/`Spec` the statements rely on: `CNF.shapeClauses`, `shapeFormula`, `isLitS`, `isAtomS`,
+`Ackermann.noApp` (Impl, specification side); `KeysFresh`, `ConstsFresh`, `KeyBool`, `KeyTyped`, `Knows`, `ext`,
+`extA`, `recover`, `withFns`, `SameOn`, `SimpSound`, `SimpSym`, `SimpShape`, `SimpSide`, `ShapeSide`, `simpArgs`,
+`AtomsStable` (Proofs/C11*.lean).
 -/
 namespace PySMT.C11
 open PySMT.CNF PySMT.Ackermann
-open PySMT.C11.Proofs (KeysFresh ConstsFresh var_wf node_wf allTrue allTrue_wf)
+open PySMT.C11.Proofs (KeysFresh ConstsFresh Knows var_wf node_wf allTrue allTrue_wf)
 
-/-! ### CNFizer -/
+/-! ### CNFizer (abstract simplifier) -/
 
-theorem cnf_shape (E : CNF.Env) (hσ : SimpShape E.simp) (t : Term) (hwf : t.wf = true) (R : List Clause)
-    (hR : CNF.convert E t = some R) : shapeClauses R = true :=
-  Proofs.cnf_shape E hσ t hwf R hR
+/-- clause set and `convert_as_formula` have the advertised form -/
+theorem cnf_shape (E : CNF.Env) (hσ : SimpShape E.simp) (hkb : KeyBool E) (t : Term) (hwf : t.wf = true)
+    (hty : t.typeOf = some .bool) (R : List Clause) (hR : CNF.convert E t = some R) :
+    shapeClauses R = true ∧ shapeFormula (formulaOf R) = true :=
+  Proofs.cnf_shape E hσ hkb t hwf hty R hR
 
 theorem cnf_complete (E : CNF.Env) (u : Sym → Option Term) (t : Term) (I : Interp) (R : List Clause)
     (hkeys : KeysFresh E u t) (hσ : SimpSound E.simp t I) (hR : CNF.convert E t = some R)
     (hI : eval I t = .b true) :
-    eval (ext u I) (formulaOf R) = .b true ∧ SameOn t I (ext u I) :=
+    eval (ext u I) (formulaOf R) = .b true ∧ SameOn t I (ext u I) ∧ (I.WF → (ext u I).WF) :=
   Proofs.cnf_complete E u t I R hkeys hσ hR hI
 
 theorem cnf_sound (E : CNF.Env) (u : Sym → Option Term) (t : Term) (J : Interp) (R : List Clause)
@@ -43,16 +68,17 @@ theorem cnf_sound (E : CNF.Env) (u : Sym → Option Term) (t : Term) (J : Interp
     (hR : CNF.convert E t = some R) (hJ : eval J (formulaOf R) = .b true) : eval J t = .b true :=
   Proofs.cnf_sound E u t J R hkeys hs hσ hR hJ
 
-/-! ### PolarityCNFizer -/
+/-! ### PolarityCNFizer (abstract simplifier) -/
 
-theorem polCnf_shape (E : CNF.Env) (hσ : SimpShape E.simp) (t : Term) (hwf : t.wf = true)
-    (hqf : t.isQF = true) (R : List Clause) (hR : PolCNF.convert E t = some R) : shapeClauses R = true :=
-  Proofs.polCnf_shape E hσ t hwf hqf R hR
+theorem polCnf_shape (E : CNF.Env) (hσ : SimpShape E.simp) (hkb : KeyBool E) (t : Term) (hwf : t.wf = true)
+    (hqf : t.isQF = true) (hty : t.typeOf = some .bool) (R : List Clause)
+    (hR : PolCNF.convert E t = some R) : shapeClauses R = true ∧ shapeFormula (formulaOf R) = true :=
+  Proofs.polCnf_shape E hσ hkb t hwf hqf hty R hR
 
 theorem polCnf_complete (E : CNF.Env) (u : Sym → Option Term) (t : Term) (I : Interp) (R : List Clause)
     (hkeys : KeysFresh E u t) (hσ : SimpSound E.simp t I) (hR : PolCNF.convert E t = some R)
     (hI : eval I t = .b true) :
-    eval (ext u I) (formulaOf R) = .b true ∧ SameOn t I (ext u I) :=
+    eval (ext u I) (formulaOf R) = .b true ∧ SameOn t I (ext u I) ∧ (I.WF → (ext u I).WF) :=
   Proofs.polCnf_complete E u t I R hkeys hσ hR hI
 
 theorem polCnf_sound (E : CNF.Env) (u : Sym → Option Term) (t : Term) (J : Interp) (R : List Clause)
@@ -62,44 +88,59 @@ theorem polCnf_sound (E : CNF.Env) (u : Sym → Option Term) (t : Term) (J : Int
 
 /-! ### the CNF theorems with the real simplifier model `PySMT.Simplifier.simp` (C01) in place of the parameter
 
-`SimpSide key t I` (exact side condition, `Proofs/C11Simp.lean`): every term of `simpArgs key t` — the terms the
-CNFizer hands to `simplify` when it negates a literal, a computable list — is a definition symbol, or a `wf`
-Boolean term of C01's fragment `inFrag` whose symbols are symbols of `t` and in which `I` evaluates no division
-by zero.  For inputs whose atoms are already simplified these are the atoms of `t` at Boolean positions.
-`ShapeSide`: atoms handed to the simplifier come back as literals or constants (fails only as in finding F51). -/
+`_partial`: they assume `SimpSide` / `ShapeSide` (see the header); full statement = the same without these two
+hypotheses for every `t.wf` Boolean quantifier-free `t` in C01's fragment under interpretations evaluating no
+division by zero. -/
 
-theorem cnf_sound_simp (key : Term → Sym) (u : Sym → Option Term) (t : Term) (J : Interp) (R : List Clause)
+theorem cnf_sound_simp_partial (key : Term → Sym) (u : Sym → Option Term) (t : Term) (J : Interp) (R : List Clause)
     (hkeys : KeysFresh ⟨key, Simplifier.simp⟩ u t) (hJ : J.WF) (hside : Proofs.SimpSide key t J)
     (hR : CNF.convert ⟨key, Simplifier.simp⟩ t = some R) (h : eval J (formulaOf R) = .b true) :
     eval J t = .b true :=
   Proofs.cnf_sound_simp key u t J R hkeys hJ hside hR h
 
-theorem cnf_complete_simp (key : Term → Sym) (u : Sym → Option Term) (t : Term) (I : Interp) (R : List Clause)
+theorem cnf_complete_simp_partial (key : Term → Sym) (u : Sym → Option Term) (t : Term) (I : Interp)
+    (R : List Clause)
     (hkeys : KeysFresh ⟨key, Simplifier.simp⟩ u t) (hI : I.WF) (hside : Proofs.SimpSide key t I)
     (hR : CNF.convert ⟨key, Simplifier.simp⟩ t = some R) (ht : eval I t = .b true) :
-    eval (ext u I) (formulaOf R) = .b true ∧ SameOn t I (ext u I) :=
+    eval (ext u I) (formulaOf R) = .b true ∧ SameOn t I (ext u I) ∧ (ext u I).WF :=
   Proofs.cnf_complete_simp key u t I R hkeys hI hside hR ht
 
-theorem polCnf_sound_simp (key : Term → Sym) (u : Sym → Option Term) (t : Term) (J : Interp) (R : List Clause)
+theorem polCnf_sound_simp_partial (key : Term → Sym) (u : Sym → Option Term) (t : Term) (J : Interp)
+    (R : List Clause)
     (hkeys : KeysFresh ⟨key, Simplifier.simp⟩ u t) (hJ : J.WF) (hside : Proofs.SimpSide key t J)
     (hR : PolCNF.convert ⟨key, Simplifier.simp⟩ t = some R) (h : eval J (formulaOf R) = .b true) :
     eval J t = .b true :=
   Proofs.polCnf_sound_simp key u t J R hkeys hJ hside hR h
 
-theorem polCnf_complete_simp (key : Term → Sym) (u : Sym → Option Term) (t : Term) (I : Interp) (R : List Clause)
+theorem polCnf_complete_simp_partial (key : Term → Sym) (u : Sym → Option Term) (t : Term) (I : Interp)
+    (R : List Clause)
     (hkeys : KeysFresh ⟨key, Simplifier.simp⟩ u t) (hI : I.WF) (hside : Proofs.SimpSide key t I)
     (hR : PolCNF.convert ⟨key, Simplifier.simp⟩ t = some R) (ht : eval I t = .b true) :
-    eval (ext u I) (formulaOf R) = .b true ∧ SameOn t I (ext u I) :=
+    eval (ext u I) (formulaOf R) = .b true ∧ SameOn t I (ext u I) ∧ (ext u I).WF :=
   Proofs.polCnf_complete_simp key u t I R hkeys hI hside hR ht
 
-theorem cnf_shape_simp (key : Term → Sym) (t : Term) (hwf : t.wf = true) (hside : Proofs.ShapeSide key t)
-    (R : List Clause) (hR : CNF.convert ⟨key, Simplifier.simp⟩ t = some R) : shapeClauses R = true :=
-  Proofs.cnf_shape_simp key t hwf hside R hR
+theorem cnf_shape_simp_partial (key : Term → Sym) (hkb : ∀ h, (key h).params = [] ∧ (key h).ret = .bool)
+    (t : Term) (hwf : t.wf = true) (hty : t.typeOf = some .bool) (hside : Proofs.ShapeSide key t)
+    (R : List Clause) (hR : CNF.convert ⟨key, Simplifier.simp⟩ t = some R) :
+    shapeClauses R = true ∧ shapeFormula (formulaOf R) = true :=
+  Proofs.cnf_shape_simp key hkb t hwf hty hside R hR
 
-theorem polCnf_shape_simp (key : Term → Sym) (t : Term) (hwf : t.wf = true) (hqf : t.isQF = true)
+theorem polCnf_shape_simp_partial (key : Term → Sym) (hkb : ∀ h, (key h).params = [] ∧ (key h).ret = .bool)
+    (t : Term) (hwf : t.wf = true) (hqf : t.isQF = true) (hty : t.typeOf = some .bool)
     (hside : Proofs.ShapeSide key t) (R : List Clause)
-    (hR : PolCNF.convert ⟨key, Simplifier.simp⟩ t = some R) : shapeClauses R = true :=
-  Proofs.polCnf_shape_simp key t hwf hqf hside R hR
+    (hR : PolCNF.convert ⟨key, Simplifier.simp⟩ t = some R) :
+    shapeClauses R = true ∧ shapeFormula (formulaOf R) = true :=
+  Proofs.polCnf_shape_simp key hkb t hwf hqf hty hside R hR
+
+/-- **Structural discharge of both side conditions for inputs whose atoms are fixed points of the simplifier**
+(`atomsB t`: the atoms of `t` at Boolean positions): the conditions are on the atoms alone.  With it the
+`*_simp_partial` theorems apply, e.g., to every input whose atoms were simplified beforehand and are in C01's
+fragment. -/
+theorem simp_side_of_stable (key : Term → Sym) (t : Term) (I : Interp) (hst : Proofs.AtomsStable t)
+    (hat : ∀ a ∈ Proofs.atomsB t, a.wf = true ∧ Simplifier.inFrag a = true ∧ a.typeOf = some .bool ∧
+      (∀ s ∈ a.fv, s ∈ t.fv) ∧ div0 I a = false) :
+    Proofs.SimpSide key t I ∧ Proofs.ShapeSide key t :=
+  ⟨Proofs.simpSide_of_stable key t I hst hat, Proofs.shapeSide_of_stable key t hst⟩
 
 /-! ### Ackermannization -/
 
@@ -109,19 +150,38 @@ theorem ack_shape (E : Ackermann.Env) (t : Term) : noApp (ack E t) = true :=
 theorem ack_complete (E : Ackermann.Env) (u : Sym → Option Term) (t : Term) (I : Interp)
     (hwf : t.wf = true) (hqf : t.isQF = true) (hI : I.WF) (hconsts : ConstsFresh E u t)
     (ht : eval I t = .b true) :
-    eval (extA u I) (ack E t) = .b true ∧ SameOn t I (extA u I) :=
+    eval (extA u I) (ack E t) = .b true ∧ SameOn t I (extA u I) ∧ (extA u I).WF :=
   Proofs.ack_complete E u t I hwf hqf hI hconsts ht
 
 theorem ack_sound (E : Ackermann.Env) (t : Term) (J : Interp)
     (hwf : t.wf = true) (hqf : t.isQF = true) (hJ : J.WF) (htyped : KeyTyped E t)
     (h : eval J (ack E t) = .b true) :
-    eval (withFns J (recover E t J)) t = .b true :=
+    eval (withFns J (recover E t J)) t = .b true ∧ (withFns J (recover E t J)).WF :=
   Proofs.ack_sound E t J hwf hqf hJ htyped h
 
-/-! ### the fresh-symbol supply (model of `FormulaManager.new_fresh_symbol`) -/
+/-! ### the fresh-symbol supply (model of `FormulaManager.new_fresh_symbol`), any manager state `s` that knows the
+symbols of the input (`Knows s t`: other symbols may be known, the counter may have any value) -/
 
+theorem keys_fresh_in (σ : Term → Term) (s : Supply) (t : Term) (hs : Knows s t) :
+    KeysFresh (CNF.envIn σ s t) (unkey (CNF.keyTableIn s t)) t ∧ KeyBool (CNF.envIn σ s t) :=
+  ⟨Proofs.keysFresh_in σ s t hs, Proofs.keyBool_in σ s t⟩
+
+/-- the polarity converter's own supply: only the Boolean skeleton receives definition variables -/
+theorem keys_fresh_pol_in (σ : Term → Term) (s : Supply) (t : Term) (hs : Knows s t) :
+    KeysFresh (PolCNF.envIn σ s t) (unkey (PolCNF.keyTableIn s t)) t ∧ KeyBool (PolCNF.envIn σ s t) :=
+  ⟨Proofs.keysFresh_pol_in σ s t hs, Proofs.keyBool_pol_in σ s t⟩
+
+theorem consts_fresh_in (s : Supply) (t : Term) (hs : Knows s t) :
+    ConstsFresh (Ackermann.envIn s t) (unkey (constTableIn s t)) t :=
+  Proofs.constsFresh_in s t hs
+
+/-- the instances the driver uses (a manager that knows exactly the symbols of the input, counter 0) -/
 theorem keys_fresh (σ : Term → Term) (t : Term) : KeysFresh (CNF.stdEnv σ t) (unkey (keyTable t)) t :=
   Proofs.keysFresh_std σ t
+
+theorem keys_fresh_pol (σ : Term → Term) (t : Term) :
+    KeysFresh (PolCNF.stdEnv σ t) (unkey (PolCNF.keyTable t)) t :=
+  Proofs.keysFresh_pol_std σ t
 
 theorem consts_fresh (t : Term) : ConstsFresh (Ackermann.stdEnv t) (unkey (constTable t)) t :=
   Proofs.constsFresh_std t
@@ -185,8 +245,8 @@ example : t0.isQF = true ∧ t1.isQF = true := by
 
 -- both conversions answer on `t0` (for every environment) …
 example (E : CNF.Env) : (CNF.convert E t0).isSome = true ∧ (PolCNF.convert E t0).isSome = true := by
-  simp [CNF.convert, PolCNF.convert, PolCNF.boolQuant, t0, p, q, Term.isQF, Term.subterms, Term.var, Term.sym,
-    Term.op, Op.isQuantifier]
+  simp [CNF.convert, PolCNF.convert, PolCNF.boolQuant, CNF.ph, t0, p, q, Term.isQF, Term.subterms, Term.var,
+    Term.sym, Term.op, Op.isQuantifier]
 
 -- … from two definitions with six definitional clauses (three under the root polarity),
 example (E : CNF.Env) : (CNF.enc E t0).2.length = 6 ∧ (PolCNF.encP E t0 true).2.length = 3 := by
@@ -207,9 +267,47 @@ example (key : Term → Sym) (I : Interp) : Proofs.SimpSide key t0 I ∧ Proofs.
       CNF.negLit, CNF.simpNot, Term.mkNot]
   constructor
   · intro x hx; exact Or.inl (hs x hx)
-  · intro x hx _
+  · intro x hx hat
     obtain ⟨s, rfl⟩ := hs x hx
-    rw [Proofs.simp_sym]; exact Or.inl rfl
+    rw [Proofs.simp_sym]
+    rcases hat with h | h
+    · exact Or.inl (isLitS_of_atom h)
+    · exact Or.inr h
+
+-- … and, through `simp_side_of_stable`, on an input with a theory atom: `p ∧ ¬(x < 1)`
+def a2 : Term := .node .lt [x, Term.int 1] .none
+def t2 : Term := .node .and [p, .node .not [a2] .none] .none
+
+example (key : Term → Sym) (I : Interp) : Proofs.SimpSide key t2 I ∧ Proofs.ShapeSide key t2 := by
+  have hat : Proofs.atomsB t2 = [p, a2] := by
+    simp [Proofs.atomsB, t2, p, a2, x, Term.var, Term.sym, Term.int]
+  have hp : p.wf = true ∧ p.typeOf = some .bool := var_wf "p" .bool
+  have hx : x.wf = true ∧ x.typeOf = some .int := var_wf "x" .int
+  have h1 : (Term.int 1).wf = true ∧ (Term.int 1).typeOf = some .int :=
+    node_wf (op := .intConst) (args := []) (p := .i 1) (by simp) rfl rfl
+  have ha := node_wf (op := .lt) (args := [x, Term.int 1]) (p := .none) (τ := .bool)
+    (by intro a ha; simp at ha; rcases ha with rfl | rfl; exact hx.1; exact h1.1) rfl
+    (by simp only [List.map_cons, List.map_nil, hx.2, h1.2]; rfl)
+  apply simp_side_of_stable
+  · intro a ha'
+    rw [hat] at ha'
+    simp only [List.mem_cons, List.mem_nil_iff, or_false] at ha'
+    rcases ha' with rfl | rfl
+    · exact Proofs.simp_sym _
+    · simp [Simplifier.simp, Simplifier.simpWith, Simplifier.ruleOf, a2, x, Term.var, Term.sym, Term.int, Simp.keep,
+        Simp.BoolRules.walkLt, Simp.BoolRules.numVal, Build.lt_, Build.isIntConst, Build.isRealConst]
+  · intro a ha'
+    rw [hat] at ha'
+    simp only [List.mem_cons, List.mem_nil_iff, or_false] at ha'
+    rcases ha' with rfl | rfl
+    · refine ⟨hp.1, ?_, hp.2, ?_, ?_⟩
+      · simp [Simplifier.inFrag, Simplifier.inFragWith, Simplifier.ruleOf, p, Term.var, Term.sym]
+      · simp [t2, p, a2, x, Term.fv, Term.var, Term.sym, Term.int]
+      · simp [div0, Term.div0F, p, Term.var, Term.sym, div0Node]
+    · refine ⟨ha.1, ?_, ha.2, ?_, ?_⟩
+      · simp [Simplifier.inFrag, Simplifier.inFragWith, Simplifier.ruleOf, a2, x, Term.var, Term.sym, Term.int]
+      · simp [t2, p, a2, x, Term.fv, Term.var, Term.sym, Term.int]
+      · simp [div0, Term.div0F, a2, x, Term.var, Term.sym, Term.int, div0Node]
 
 -- Ackermannization of `t1` sees three applications and emits the consistency constraint of the
 -- two applications of `f`
